@@ -418,13 +418,30 @@ impl ProtocolSet {
             })
             .collect::<FuturesUnordered<_>>();
 
+        // A send fails only if the protocol has exited, e.g., because the user dropped its handle.
+        // Keep notifying the remaining protocols: the caller discards the connection on error
+        // without reporting `ConnectionClosed`, so returning on the first failure would leave the
+        // already notified protocols with a dangling connection and refuse the connection for
+        // all protocols that are still running.
+        let mut first_error = None;
+        let mut notified = 0usize;
         while !futures.is_empty() {
-            if let Some(Err(error)) = futures.next().await {
-                return Err(error.into());
+            match futures.next().await {
+                Some(Ok(())) => notified += 1,
+                Some(Err(error)) =>
+                    if first_error.is_none() {
+                        first_error = Some(error);
+                    },
+                None => {}
             }
         }
 
-        Ok(())
+        // If no protocol could be notified, nobody serves the connection and nobody has to be
+        // informed about its closure.
+        match first_error {
+            Some(error) if notified == 0 => Err(error.into()),
+            _ => Ok(()),
+        }
     }
 
     /// Report to protocols that a connection was closed.
